@@ -160,6 +160,8 @@ def run(ctx, chk, tier):
         if not seen_fb:
             chk.unknown("R17.4", "%s: fallback not observed" % tag)
     threshold_at_metric(ctx, chk)
+    from . import c10
+    c10.purity(ctx, chk, only=("Scores.threshold_at_metric", "utils.invert_pl_function"), strict=False)
     chk.floor("R17.2", 2, "crossing predicates for array and scalar targets")
 
 
